@@ -334,8 +334,8 @@ def plan(tier, seed):
     if tier == "quick":
         return [{"kind": "tables", "examples": 50, "seed": seed * 1000 + k} for k in range(14)] + \
                [{"kind": "splitter", "examples": 25, "seed": seed * 1000 + 100 + k} for k in range(4)]
-    return [{"kind": "tables", "examples": 650, "seed": seed * 1000 + k} for k in range(16)] + \
-           [{"kind": "splitter", "examples": 400, "seed": seed * 1000 + 100 + k} for k in range(8)]
+    return [{"kind": "tables", "examples": 1200, "seed": seed * 1000 + k} for k in range(16)] + \
+           [{"kind": "splitter", "examples": 800, "seed": seed * 1000 + 100 + k} for k in range(8)]
 
 
 def run_shard(spec) -> ShardResult:
